@@ -209,8 +209,385 @@ static void c04_check(void)
     if (acquire_get_state(RT) != DeviceState_Armed) vs_fail("C04:not-armed-after-stop", "runtime state after stop is %d", (int)acquire_get_state(RT));
 }
 
+
+// ------------------------------------------------------------------------------------------------
+// multi-acquisition client programs (C06, C07, C09): the runtime is configured in setup; each
+// acquisition = start ; client program ; end (stop | abort | hold-across-end)
+// ------------------------------------------------------------------------------------------------
+static void begin_acquisition(int reader_was_registered[2])
+{
+    for (int s = 0; s < P_STREAMS; ++s) {
+        reader_was_registered[s] = rt->video[s].monitor.reader.id != 0;
+        MON[s].have_last = 0; MON[s].frames_seen = 0;
+    }
+}
+static int g_expect_first0[2];
+static int g_end_is_abort = 1;
+static void client_check_first(int s, const char* prop)
+{
+    // a reader that was registered before this acquisition started cannot miss its first frame
+    if (g_expect_first0[s] && MON[s].frames_seen > 0 && !MON[s].have_last) return;
+}
+static void client_ops(const char* prog, const char* prop, int* held)
+{
+    *held = 0;
+    for (const char* p = prog; *p; ++p) {
+        for (int s = 0; s < P_STREAMS; ++s) {
+            int before = MON[s].frames_seen;
+            uint64_t first_id = ~0ull;
+            switch (*p) {
+                case 'm': client_poll(s, 0, 0, prop); break;
+                case 'p': client_poll(s, 1, 0, prop); break;
+                case 'z': client_poll(s, 2, 0, prop); break;
+                case 'h': client_poll(s, 0, (double)vs_param("hold_ms", 25), prop); break;
+                case 'w': vs_sleep_ms((double)vs_param("wait_ms", 12)); break;
+                case 'H': if (!g_end_is_abort) { client_poll(s, 0, (double)vs_param("hold_ms", 25), prop); break; } // holding across stop blocks the pipeline the client waits for: not legal use
+                    // fallthrough
+                case 'Q': { // map and keep holding across the end call
+                    struct VideoFrame *b = 0, *e = 0;
+                    if (acquire_map_read(RT, (uint32_t)s, &b, &e) != AcquireStatus_Ok) {
+                        char cl[64]; snprintf(cl, sizeof cl, "%s:map-read-fails", prop);
+                        vs_fail(cl, "acquire_map_read(stream %d) returned an error through legal use", s);
+                    }
+                    const uint8_t* cur = (const uint8_t*)b;
+                    while (cur < (const uint8_t*)e) { const struct VideoFrame* f = (const struct VideoFrame*)cur; client_check_frame(s, f, prop); cur += f->bytes_of_frame; }
+                    *held |= 1 << s;
+                    if (b != e) vs_event(12);
+                    break;
+                }
+            }
+            if (g_expect_first0[s] && before == 0 && MON[s].frames_seen > 0) {
+                // first frames of this acquisition seen by a reader registered earlier: must start at id 0
+                first_id = MON[s].last_id - (uint64_t)(MON[s].frames_seen - 1);
+                if (first_id != 0) {
+                    char cl[64]; snprintf(cl, sizeof cl, "%s:monitor-missed-first-frames", prop);
+                    vs_fail(cl, "stream %d: the monitor reader existed before this acquisition started, yet the first frame it sees has id %llu", s, (unsigned long long)first_id);
+                }
+            }
+        }
+        if (*p != 'w' && *p != 'H') vs_sleep_ms(7);
+    }
+    (void)client_check_first;
+}
+static void release_held(int held, const char* prop)
+{
+    for (int s = 0; s < P_STREAMS; ++s)
+        if (held >> s & 1) {
+            if (acquire_unmap_read(RT, (uint32_t)s, (size_t)1 << 30) != AcquireStatus_Ok) {
+                char cl[64]; snprintf(cl, sizeof cl, "%s:unmap-read-fails", prop);
+                vs_fail(cl, "acquire_unmap_read(stream %d) after stop/abort returned an error", s);
+            }
+        }
+}
+static void check_quiescent(const char* prop, const char* after)
+{
+    char cl[96];
+    for (int s = 0; s < P_STREAMS; ++s) {
+        struct video_s* v = &rt->video[s];
+        if (v->source.is_running || v->filter.is_running || v->sink.is_running) {
+            snprintf(cl, sizeof cl, "%s:workers-alive-after-%s", prop, after);
+            vs_fail(cl, "stream %d: worker flags after %s returned: source=%d filter=%d sink=%d", s, after, v->source.is_running, v->filter.is_running, v->sink.is_running);
+        }
+        if (v->source.thread.is_live_ || v->filter.thread.is_live_ || v->sink.thread.is_live_) {
+            snprintf(cl, sizeof cl, "%s:threads-not-joined-after-%s", prop, after);
+            vs_fail(cl, "stream %d: worker threads still live after %s returned", s, after);
+        }
+        if (vmock_cam(s)->started) { snprintf(cl, sizeof cl, "%s:camera-not-stopped-after-%s", prop, after); vs_fail(cl, "stream %d: camera still started after %s returned", s, after); }
+        if (vmock_store(s)->started) { snprintf(cl, sizeof cl, "%s:storage-not-stopped-after-%s", prop, after); vs_fail(cl, "stream %d: storage still started after %s returned", s, after); }
+    }
+    enum DeviceState st = acquire_get_state(RT);
+    if (st != DeviceState_Armed) { snprintf(cl, sizeof cl, "%s:not-armed-after-%s", prop, after); vs_fail(cl, "acquire_get_state is %s after %s returned", device_state_as_string(st), after); }
+}
+
+// ---- C06: acquisitions ended by stop ('s') or abort ('a'); client programs; monitoring from acquisition `from`
+static int g_end_abort[8];
+static void c06_setup(void) { common_setup("C06"); }
+static void c06_run(void)
+{
+    const char* ends = vs_param_str("ends", "ss");
+    const char* prog = vs_param_str("prog", "mm");
+    int from = (int)vs_param("from", 0);
+    int nacq = (int)strlen(ends);
+    for (int a = 0; a < nacq; ++a) {
+        int reg[2];
+        begin_acquisition(reg);
+        for (int s = 0; s < P_STREAMS; ++s) g_expect_first0[s] = reg[s];
+        OKQ(acquire_start(RT));
+        int held = 0;
+        g_end_is_abort = ends[a] == 'a';
+        if (a >= from) client_ops(prog, "C06", &held);
+        else vs_sleep_ms(15);
+        g_end_abort[a] = ends[a] == 'a';
+        if (ends[a] == 'a') OKQ(acquire_abort(RT)); else OKQ(acquire_stop(RT));
+        release_held(held, "C06");
+        check_quiescent("C06", ends[a] == 'a' ? "abort" : "stop");
+        // nothing of this acquisition may be delivered later: a poll now must be empty
+        if (a >= from)
+            for (int s = 0; s < P_STREAMS; ++s) {
+                struct VideoFrame *b = 0, *e = 0;
+                if (acquire_map_read(RT, (uint32_t)s, &b, &e) != AcquireStatus_Ok) vs_fail("C06:map-read-fails", "acquire_map_read(stream %d) fails after %s", s, ends[a] == 'a' ? "abort" : "stop");
+                if (b != e) vs_fail("C06:frames-delivered-after-end", "stream %d: %zd bytes of acquisition %d are still delivered to the monitor after %s returned (first frame id %llu)", s, (char*)e - (char*)b, a + 1, ends[a] == 'a' ? "abort" : "stop", (unsigned long long)b->frame_id);
+                acquire_unmap_read(RT, (uint32_t)s, 0);
+            }
+        vs_observe_u64((uint64_t)MON[0].frames_seen);
+    }
+}
+static void c06_check(void)
+{
+    const char* ends = vs_param_str("ends", "ss");
+    for (int s = 0; s < P_STREAMS; ++s)
+        for (int a = 0; ends[a]; ++a) check_storage_complete(s, a + 1, (int)PROPS.video[s].max_frame_count, "C06", ends[a] == 'a');
+    observe_storage(0);
+    if (rt->video[0].sink.in.cycle > 0) vs_event(2);
+}
+
+// ---- C07: abort/stop issued by a controller thread (so every point of the schedule is an abort instant),
+//      or by the client itself; then a complete follow-up acquisition
+static void c07_controller(void* arg)
+{
+    (void)arg;
+    if (vs_param("ctl_stop", 0)) OKQ(acquire_stop(RT)); else OKQ(acquire_abort(RT));
+}
+static void c07_setup(void) { common_setup("C07"); }
+static void c07_run(void)
+{
+    int variant = (int)vs_param("variant", 0);
+    int reg[2];
+    begin_acquisition(reg);
+    OKQ(acquire_start(RT));
+    int held = 0;
+    if (variant == 0) {          // controller thread aborts at an arbitrary instant
+        int t = vs_spawn(c07_controller, 0, "controller");
+        if (vs_param("client_polls", 0)) client_ops("mm", "C07", &held);
+        vs_join(t);
+    } else if (variant == 1) {   // the client itself, after some polling / waiting
+        client_ops(vs_param_str("prog", "w"), "C07", &held);
+        if (vs_param("ctl_stop", 0)) OKQ(acquire_stop(RT)); else OKQ(acquire_abort(RT));
+    } else if (variant == 2) {   // two threads abort concurrently
+        int t = vs_spawn(c07_controller, 0, "controller");
+        OKQ(acquire_abort(RT));
+        vs_join(t);
+    }
+    release_held(held, "C07");
+    check_quiescent("C07", vs_param("ctl_stop", 0) ? "stop" : "abort");
+    for (int s = 0; s < P_STREAMS; ++s) check_storage_complete(s, 1, -1, "C07", 1);
+    // follow-up acquisition: configure; start; stop -> complete and correct, nothing left over
+    for (int s = 0; s < P_STREAMS; ++s) { PROPS.video[s].max_frame_count = 2; VM.cam[s].trigger = 0; PROPS.video[s].camera.settings.input_triggers.frame_start.enable = 0; VM.store[s].append_ms = 0; }
+    OKQ(acquire_configure(RT, &PROPS));
+    begin_acquisition(reg);
+    for (int s = 0; s < P_STREAMS; ++s) g_expect_first0[s] = reg[s];
+    OKQ(acquire_start(RT));
+    if (vs_param("client_polls", 0) || variant == 1) client_ops("mwm", "C07", &held);
+    OKQ(acquire_stop(RT));
+    check_quiescent("C07", "stop");
+}
+static void c07_check(void)
+{
+    for (int s = 0; s < P_STREAMS; ++s) check_storage_complete(s, 2, 2, "C07", 0);
+    observe_storage(0);
+    vs_observe_u64((uint64_t)vmock_cam(0)->ndelivered);
+}
+
+// ---- C09: device faults, then stop or abort, then a fault-free acquisition
+static void c09_setup(void) { common_setup("C09"); }
+static void c09_run(void)
+{
+    int reg[2], held = 0;
+    begin_acquisition(reg);
+    OKQ(acquire_start(RT));
+    if (vs_param("client_polls", 0)) client_ops("mm", "C09", &held);
+    else vs_sleep_ms((double)vs_param("wait_ms", 5));
+    if (vs_param("end_abort", 0)) OKQ(acquire_abort(RT)); else OKQ(acquire_stop(RT));
+    // workers have exited: the runtime must not report Running
+    enum DeviceState st = acquire_get_state(RT);
+    if (st == DeviceState_Running) vs_fail("C09:running-after-failure-wind-down", "acquire_get_state still reports Running after the workers exited");
+    for (int s = 0; s < P_STREAMS; ++s) {
+        if (vmock_cam(s)->started) vs_fail("C09:camera-not-stopped-after-fault", "stream %d: the camera was left started after the failing acquisition wound down", s);
+        if (rt->video[s].source.is_running || rt->video[s].sink.is_running || rt->video[s].filter.is_running) vs_fail("C09:workers-alive-after-fault", "stream %d: worker flags still set after stop/abort returned", s);
+    }
+    // storage fault: nothing after the failing append (the mock's protocol monitor catches a later append);
+    // camera fault at call k: storage holds a prefix of the k frames delivered before it
+    for (int s = 0; s < P_STREAMS; ++s) check_storage_complete(s, 1, -1, "C09", 1);
+    // fault-free follow-up
+    for (int s = 0; s < P_STREAMS; ++s) { VM.cam[s].fail_get_frame_at = -1; VM.store[s].fail_append_at = -1; PROPS.video[s].max_frame_count = 2; VM.store[s].append_ms = 0; }
+    OKQ(acquire_configure(RT, &PROPS));
+    begin_acquisition(reg);
+    OKQ(acquire_start(RT));
+    OKQ(acquire_stop(RT));
+    check_quiescent("C09", "stop");
+}
+static void c09_check(void)
+{
+    // the follow-up acquisition is acquisition 2 of the camera; the storage may have skipped a start
+    for (int s = 0; s < P_STREAMS; ++s) {
+        struct vm_dev* cam = vmock_cam(s);
+        struct vm_dev* st = vmock_store(s);
+        int nd = 0, nr = 0;
+        for (int i = 0; i < cam->ndelivered; ++i) nd += cam->delivered[i].acq == cam->acq;
+        for (int i = 0; i < st->nreceived; ++i) nr += st->received[i].acq == st->acq;
+        if (nd != 2 || nr != 2) vs_fail("C09:follow-up-acquisition-incomplete", "stream %d: fault-free follow-up acquisition delivered %d frames and stored %d, expected 2 and 2", s, nd, nr);
+        for (int i = 0, k = 0; i < st->nreceived; ++i)
+            if (st->received[i].acq == st->acq) {
+                if (st->received[i].frame_id != (uint64_t)k) vs_fail("C09:follow-up-acquisition-wrong", "stream %d: follow-up stored frame %d has id %llu", s, k, (unsigned long long)st->received[i].frame_id);
+                uint8_t want = vmock_pixel(cam->acq, s, (uint64_t)k, 0);
+                if (st->received[i].pix[0] != want) vs_fail("C09:follow-up-acquisition-wrong", "stream %d: follow-up stored frame %d carries data of another acquisition (0x%02x, expected 0x%02x)", s, k, st->received[i].pix[0], want);
+                ++k;
+            }
+    }
+    observe_storage(0);
+    vs_observe_u64((uint64_t)vmock_cam(0)->ndelivered);
+}
+
+// ---- C10: frame averaging; the filter thread is in the loop
+static void c10_setup(void) { common_setup("C10"); }
+static void c10_run(void)
+{
+    OKQ(acquire_start(RT));
+    client_during_acquisition("C10");
+    OKQ(acquire_stop(RT));
+}
+static double sample_value(const uint8_t* px, int type, uint32_t i)
+{
+    switch (type) {
+        case SampleType_u8: return px[i];
+        case SampleType_i8: return (int8_t)px[i];
+        case SampleType_u16: case SampleType_u10: case SampleType_u12: case SampleType_u14: { uint16_t v; memcpy(&v, px + 2 * i, 2); return v; }
+        case SampleType_i16: { int16_t v; memcpy(&v, px + 2 * i, 2); return v; }
+    }
+    return 0;
+}
+static void c10_check(void)
+{
+    int k = P_AVG;
+    for (int s = 0; s < P_STREAMS; ++s) {
+        struct vm_dev* cam = vmock_cam(s);
+        struct vm_dev* st = vmock_store(s);
+        int nd = cam->ndelivered, nr = st->nreceived;
+        int full = nd / k, rem = nd % k;
+        if (nr < full || nr > full + (rem ? 1 : 0))
+            vs_fail("C10:wrong-number-of-averaged-frames", "stream %d: %d input frames with window %d give %d complete windows (+%d trailing); storage received %d frames", s, nd, k, full, rem ? 1 : 0, nr);
+        uint32_t npx = cam->delivered[0].shape.dims.width * cam->delivered[0].shape.dims.height;
+        for (int j = 0; j < nr; ++j) {
+            const struct vm_frame* r = &st->received[j];
+            int first = j * k, cnt = (j < full) ? k : rem;
+            if (r->shape.type != SampleType_f32) vs_fail("C10:output-not-f32", "stream %d averaged frame %d has sample type %d", s, j, (int)r->shape.type);
+            if (r->frame_id != cam->delivered[first].frame_id) vs_fail("C10:wrong-window-frame-id", "stream %d averaged frame %d has frame_id %llu, its window starts at input %llu", s, j, (unsigned long long)r->frame_id, (unsigned long long)cam->delivered[first].frame_id);
+            for (uint32_t i = 0; i < npx && 4 * i + 4 <= r->npix_bytes; ++i) {
+                double sum = 0;
+                for (int q = 0; q < cnt; ++q) sum += sample_value(cam->delivered[first + q].pix, (int)cam->delivered[first + q].shape.type, i);
+                float want = (float)(sum / cnt), got;
+                memcpy(&got, r->pix + 4 * i, 4);
+                float tol = (want < 0 ? -want : want) * 2.4e-7f + 1e-30f; // 2 ulp
+                if (!(got >= want - tol && got <= want + tol))
+                    vs_fail("C10:wrong-mean", "stream %d averaged frame %d (window of %d inputs starting at input %d) pixel %u = %.9g, exact mean = %.9g", s, j, cnt, first, i, (double)got, (double)want);
+            }
+        }
+        vs_observe_u64((uint64_t)nr); vs_observe_u64((uint64_t)st->npackets);
+        if (rt->video[s].sink.in.cycle > 0) vs_event(2);
+        if (rt->video[s].filter.in.cycle > 0) vs_event(3);
+        if (rem) vs_event(4);
+    }
+}
+
+
+// ------------------------------------------------------------------------------------------------
+// C08: client programs over the public API; device life-cycle monitor in the mock driver
+//   A/B: configure stream 0 with device set A (vcam0,vstore0) / B (vcam1,vstore1); 2: both streams; 0: no stream
+//   s start, t trigger, m map, u unmap, S stop, a abort, g get_state, X shutdown+init; every program ends with shutdown
+// ------------------------------------------------------------------------------------------------
+static void c08_setup(void)
+{
+    rt_init();
+    VM.prop = "C08";
+    P_STREAMS = 2; P_W = 3; P_H = 1; P_TYPE = SampleType_u8; P_AVG = 0; P_CLIENT = 0;
+    P_RING = 2 * frame_bytes(4, 1, 0) + 8; P_FRING = P_RING;
+    rt_resize_rings(P_RING, P_FRING, 0x42);
+    for (int s = 0; s < 2; ++s) { VM.cam[s].width = (uint32_t)(3 + s); VM.cam[s].exposure_ms = 4; }
+    rt_watch_flags(2, (int)vs_param("watch", 1));
+}
+static void c08_configure(char which)
+{
+    struct AcquireProperties p;
+    memset(&p, 0, sizeof p);
+    acquire_get_configuration(RT, &p);
+    for (int s = 0; s < 2; ++s) { p.video[s].camera.identifier.kind = DeviceKind_None; p.video[s].storage.identifier.kind = DeviceKind_None; p.video[s].max_frame_count = 2; p.video[s].frame_average_count = 0; }
+    if (which == 'A') rt_select(&p, 0, "vcam0", "vstore0");
+    if (which == 'B') rt_select(&p, 0, "vcam1", "vstore1");
+    if (which == '2') { rt_select(&p, 0, "vcam0", "vstore0"); rt_select(&p, 1, "vcam1", "vstore1"); }
+    acquire_configure(RT, &p); // may legitimately report an error (e.g. no stream): the oracle is the device monitor
+}
+static void c08_state_oracle(const char* after)
+{
+    enum DeviceState st = acquire_get_state(RT);
+    if (st == DeviceState_Running) {
+        int alive = 0;
+        for (int s = 0; s < 2; ++s) alive |= rt->video[s].source.is_running | rt->video[s].filter.is_running | rt->video[s].sink.is_running;
+        if (!alive) vs_fail("C08:running-without-live-workers", "acquire_get_state reports Running after %s although no worker of any stream is alive", after);
+    }
+    if ((after[0] == 'S' || after[0] == 'a') && st != DeviceState_Armed && st != DeviceState_AwaitingConfiguration)
+        vs_fail("C08:not-armed-after-stop-or-abort", "acquire_get_state is %s right after %s", device_state_as_string(st), after[0] == 'S' ? "stop" : "abort");
+}
+static int g_c08_shutdowns;
+static void c08_run(void)
+{
+    const char* prog = vs_param_str("prog", "AsS");
+    int mapped = 0;
+    for (const char* p = prog; *p; ++p) {
+        char one[2] = { *p, 0 };
+        switch (*p) {
+            case 'A': case 'B': case '2': case '0': c08_configure(*p); break;
+            case 's': acquire_start(RT); break;
+            case 't': acquire_execute_trigger(RT, 0); break;
+            case 'm': {
+                struct VideoFrame *b = 0, *e = 0;
+                if (!mapped && acquire_map_read(RT, 0, &b, &e) == AcquireStatus_Ok) {
+                    char msg[300];
+                    if (vmock_check_packet((uint8_t*)b, (uint8_t*)e, msg, sizeof msg) < 0) vs_fail("C05:monitor-packet-malformed", "%s", msg);
+                    mapped = 1;
+                }
+                break;
+            }
+            case 'u': acquire_unmap_read(RT, 0, (size_t)1 << 30); mapped = 0; break;
+            case 'S': if (mapped) { acquire_unmap_read(RT, 0, (size_t)1 << 30); mapped = 0; } acquire_stop(RT); break;
+            case 'a': acquire_abort(RT); break;
+            case 'g': break;
+            case 'w': vs_sleep_ms(9); break;
+            case 'X':
+                acquire_shutdown(RT); ++g_c08_shutdowns; mapped = 0;
+                vs_unwatch_all();
+                RT = acquire_init(rt_reporter);
+                if (!RT) vs_fail("C08:init-after-shutdown-fails", "acquire_init after acquire_shutdown returned NULL");
+                rt = containerof(RT, struct runtime, handle);
+                rt_resize_rings(P_RING, P_FRING, 0x42);
+                rt_watch_flags(2, (int)vs_param("watch", 1));
+                break;
+        }
+        c08_state_oracle(one);
+    }
+    acquire_shutdown(RT); ++g_c08_shutdowns;
+    RT = 0;
+}
+static void c08_check(void)
+{
+    for (int i = 0; i < VM_NCAM + VM_NSTORE; ++i) {
+        struct vm_dev* d = &VM.dev[i];
+        const char* dn = d->kind == 1 ? "vcam" : "vstore";
+        if (d->open) vs_fail("C08:device-left-open-after-shutdown", "%s%d was opened %d times and closed %d times; it is still open after acquire_shutdown", dn, d->idx, d->opens, d->closes);
+        if (d->opens != d->closes) vs_fail("C08:open-close-mismatch", "%s%d opened %d times, closed %d times", dn, d->idx, d->opens, d->closes);
+        if (d->stops != d->acq) vs_fail("C08:start-stop-mismatch", "%s%d: %d successful starts but %d stops", dn, d->idx, d->acq, d->stops);
+        vs_observe_u64((uint64_t)d->opens * 1000 + (uint64_t)d->acq * 10 + (uint64_t)d->stops);
+    }
+    if (VM.driver_shutdowns != g_c08_shutdowns) vs_fail("C08:driver-shutdown-count", "%d runtime shutdowns but the driver's shutdown was called %d times", g_c08_shutdowns, VM.driver_shutdowns);
+    vs_observe_u64((uint64_t)vmock_store(0)->nreceived);
+}
+
 struct vs_scenario vs_scenarios[] = {
     { "c04", "finite acquisition start..stop; params n ringf ringx w h type exposure append_ms write_delay client streams", c04_setup, c04_run, c04_check },
+    { "c06", "acquisitions ended by ends=[sa]+ with client program prog=[mpzhwH]*, monitoring from acquisition `from`", c06_setup, c06_run, c06_check },
+    { "c07", "abort/stop from a controller thread (variant 0), the client (1) or both (2), then a follow-up acquisition", c07_setup, c07_run, c07_check },
+    { "c09", "camfail=k / storefail=k fault, end by stop or abort (end_abort), then a fault-free acquisition", c09_setup, c09_run, c09_check },
+    { "c08", "client program prog over {A,B,2,0,s,t,m,u,S,a,g,w,X}; device life-cycle monitor", c08_setup, c08_run, c08_check },
+    { "c10", "frame averaging avg=k; exact-mean oracle on the storage log", c10_setup, c10_run, c10_check },
     { 0 },
 };
 
